@@ -194,10 +194,21 @@ CHECKS["C15"] = dict(
          "pinned Keras and are NOT covered.  Formula and conv+BN clauses are equalities over the reals (rounding outside the claim).",
     ref="DESIGN.md section 3 C15")
 
+CHECKS["C14"] = dict(
+    level="model_checking", engine="pysym",
+    technique="symbolic execution of the real model_save_quantized_weights on a model proxy with z3-backed weights (all feasible paths), quantizer calls replaced "
+              "by their value-set contracts (assume-guarantee with C01/C03/C05); NRA/NIA queries with finite power-of-two tables; replay on the real export",
+    text="On every path of the export the solver decides: each quantized layer receives exactly [q_i(w_i)] through one set_weights call; dictionary entries of "
+         "ordinary quantizers are the stored weights; sign * 2^exponent rebuilds *_po2 weights (sign in {-1,+1}); scale * integer weight rebuilds "
+         "quantized_bits(alpha='auto_po2') weights with integers inside the declared bit range.  Counterexamples are replayed on the real export of a real "
+         "Keras-3 model (legacy Keras attributes stubbed).",
+    note="The last two clauses fail on the unchanged tree (two known findings, one root cause: the exported integer weight keeps the scale).  Not covered: "
+         "batch-norm fusing, pooling and folded-layer entries, the hdf5 file, 'predictions unchanged / second export changes nothing' (they follow from the "
+         "quantizers' idempotence, C02/C03/C05), clone_model_and_freeze_auto_po2_scale.  Weight tensors have 1-4 elements.",
+    ref="DESIGN.md section 3 C14")
+
 NOT_YET = "check not built yet in this revision (see DESIGN.md section 7 build order)"
 NOT_APPLICABLE = {
-    "C14": "model_save_quantized_weights aborts at its first statement under the pinned Keras 3 (qgraph needs KerasTensor.ref) and its body is "
-           "eager NumPy/Keras interop that can neither be traced to a graph nor run on solver-backed proxies (DESIGN.md section 5)",
 }
 
 
